@@ -24,6 +24,7 @@ import (
 	"io"
 	"io/ioutil"
 	"math/big"
+	"net"
 	"os"
 	"os/exec"
 	"path/filepath"
@@ -230,6 +231,18 @@ func settle(d time.Duration, cond func() bool) {
 	}
 }
 
+var localhostOnce sync.Once
+var localhostOK bool
+
+// localhostIsLoopback: does "localhost" resolve to 127.0.0.1 (and only to addresses of this machine) here?
+func localhostIsLoopback() bool {
+	localhostOnce.Do(func() {
+		a, err := net.ResolveTCPAddr("tcp", "localhost:1")
+		localhostOK = err == nil && a.IP.Equal(net.IPv4(127, 0, 0, 1))
+	})
+	return localhostOK
+}
+
 func sessionFile(path, addr string) string {
 	if s, err := session.NewFromFile(path).Load(); err == nil && s != nil {
 		hostOK := "host-other"
@@ -281,8 +294,14 @@ func runCase(c *Case) Obs {
 	}
 	k := testKeys[c.Key%len(testKeys)]
 	store := &countingStore{inner: session.NewFromFile(sess)}
+	// the server's address as the application configures it: an IP literal, or - every third case, where this
+	// machine resolves it to the loopback address - a NAME with a port
+	host := srv.Addr()
+	if (len(c.ID)+int(c.ID[len(c.ID)-1]))%3 == 1 && localhostIsLoopback() && strings.HasPrefix(host, "127.0.0.1:") {
+		host = "localhost:" + strings.TrimPrefix(host, "127.0.0.1:")
+	}
 	m, err := mtproto.NewMTProto(mtproto.Config{
-		SessionStorage: store, ServerHost: srv.Addr(),
+		SessionStorage: store, ServerHost: host,
 		PublicKey: &rsa.PublicKey{N: k.N, E: int(k.E.Int64())},
 	})
 	if err != nil {
@@ -430,7 +449,7 @@ func runCase(c *Case) Obs {
 		settle(60*time.Millisecond, func() bool { n, _ := store.count(); return n > 0 })
 		enc, key, _, salt, _ := m.VerifSessionState()
 		n, last := store.count()
-		o.AfterChatter = fmt.Sprintf("stores=%d encrypted=%v key=%d salt=%x file=%s", n, enc, len(key), uint64(salt), tail(sessionFile(sess, srv.Addr()), 12))
+		o.AfterChatter = fmt.Sprintf("stores=%d encrypted=%v key=%d salt=%x file=%s", n, enc, len(key), uint64(salt), tail(sessionFile(sess, host), 12))
 		if n > 0 {
 			o.AfterChatter += " last-store: " + last
 		}
@@ -474,7 +493,7 @@ func runCase(c *Case) Obs {
 			o.PostReq = "pending"
 		}
 	}
-	o.Session = sessionFile(sess, srv.Addr())
+	o.Session = sessionFile(sess, host)
 	o.StoreCalls, _ = store.count()
 	// ... and after a SUCCESSFUL exchange: the unencrypted messages must change nothing (the key exchange is over, the
 	// session is encrypted); the encrypted new_session_created is legitimate: salt taken over and stored
